@@ -4,9 +4,10 @@
      old value of a region output  ==  Transpose p (its new value)      (or both are the same one-element tensor)
      old value of a removed input Transpose's output == Transpose p (new value of its source)
      every other name: equivalent values
-   The semantic core is ElemCommute.pwn_transpose, applied node by node in graph order. *)
+   The semantic core is ElemBroadcast.pwg_transpose (pointwise operators under general numpy broadcasting commute with
+   Transpose), applied node by node in graph order. *)
 From Coq Require Import ZArith String List Bool Arith Lia.
-From J2O Require Import PyLib Tensor Graph Redirect Preserve Reshape ElemCommute ChainSim ReshapePairPass ChainFacts C02Opt ElemSem TransposePairPass.
+From J2O Require Import PyLib Tensor Graph Redirect Preserve Reshape ElemCommute ChainSim ReshapePairPass ChainFacts C02Opt ElemSem ElemBroadcast TransposePairPass.
 From J2OGen Require Import GenCast GenOpt.
 Import ListNotations.
 
@@ -159,11 +160,11 @@ Section RegionSound.
     exists o', sem op ats vs' = Some o' /\ Forall2 teq o o'.
   Hypothesis Htr : sem_transpose_spec A sem op_type.
   Variable F : string -> list nat -> list A -> A.
-  Hypothesis Hpw : sem_pointwise_spec_a A sem op_type F.
+  Hypothesis Hpw : sem_pointwise_spec_g A sem op_type F.
   Variable Fcl : list nat -> V -> A -> A.
   Hypothesis Hcl : sem_castlike_spec_n A sem op_type Fcl.
   Hypothesis Hcl_type : castlike_type_only A Fcl.
-  Hypothesis Hacc : sem_accepts_spec_a A sem op_type.
+  Hypothesis Hacc : sem_accepts_spec_g A sem op_type.
 
   Notation evalg := (eval V sem).
   Notation stepg := (step V sem).
@@ -174,13 +175,9 @@ Section RegionSound.
   Hypothesis Hadm : tadmissible g e.
   Hypothesis Hrf : region_facts g r p q.
   Hypothesis Hev : evalg (tg_nodes g) e = Some ef.
-  (* in the original run no operand of a pointwise region member has more than |p| dimensions, and the operands of a
-     region member are one-element tensors or have one common shape *)
+  (* in the original run no operand of a pointwise region member has more than |p| dimensions *)
   Hypothesis Hrank : forall n u v, In n (r_es r) -> str_in (nop n) pw_ops_all = true -> In u (n_ins n) -> ef u = Some v ->
     length (shape v) <= length p.
-  Hypothesis Hbc : forall n vs, In n (r_es r) -> str_in (nop n) pw_ops_all = true -> lookups V ef (n_ins n) = Some vs -> operands_ok vs.
-  Hypothesis Huni_old : forall n vs, In n (tg_nodes g) -> is_elem n = true -> str_in (nop n) pw_ops_all = true ->
-    lookups V ef (n_uses n) = Some vs -> operands_ok vs.
 
   Let Hssa : ssa V (tg_nodes g) e := tadm_ssa _ _ _ _ Hadm.
   Let Hnd : NoDup (defs (tg_nodes g)) := proj1 Hssa.
@@ -424,13 +421,6 @@ Section RegionSound.
     induction 1 as [|v w l l' H _ IH]; intro Hall; constructor; inversion Hall; subst; auto. now apply (trel_all1_teq p).
   Qed.
 
-  Lemma pwn_all1_shape (Fn : list A -> A) (vs : list V) : Forall (fun v => all1 (shape v) = true) vs -> all1 (shape (pwn Fn vs)) = true.
-  Proof.
-    intro Hall. unfold pwn, full_shape. destruct (find (fun v => negb (all1 (shape v))) vs) as [y|] eqn:Ef.
-    - apply find_some in Ef as [Hy Hn]. rewrite Forall_forall in Hall. rewrite (Hall _ Hy) in Hn. discriminate.
-    - cbn [shape]. rewrite app_nil_r. apply all1_repeat.
-  Qed.
-
   Lemma es_step pre post n em em' e1 : tg_nodes g = pre ++ post -> evalg pre e = Some em ->
     (forall y a, em y = Some a -> ef y = Some a) -> In n (r_es r) ->
     (forall y, In y (n_outs n) -> em y = None) -> NoDup (n_outs n) ->
@@ -471,15 +461,14 @@ Section RegionSound.
       + right. split; [now rewrite (proj1 Hyv)|].
         eapply teq_trans; [exact Hyv|]. eapply teq_trans; [apply tmap_teq; exact Hxw|]. eapply teq_trans; [exact Hff | now apply teq_sym].
     - (* pointwise *)
-      pose proof (Hbc n vs Hn Hop Hlef) as Hok.
-      destruct (Hpw _ _ _ _ Hop Hsem Hok) as (yv & -> & Hyv).
+      destruct (Hpw _ _ _ _ Hop Hsem) as (Hok & yv & -> & Hyv).
       destruct (forallb (fun v => all1 (shape v)) vs) eqn:Eall.
       + (* only one-element operands: nothing to move *)
         assert (Hall : Forall (fun v => all1 (shape v) = true) vs) by (apply Forall_forall; intros v Hv; rewrite forallb_forall in Eall; auto).
         pose proof (trel_teq_all1 _ _ Htrel Hall) as Hteq.
         destruct (sem_proper _ _ _ _ _ Hteq Hsem) as (o' & Hs' & Ho'). inversion Ho' as [|? yv' ? r1 Hyy' Hr1]; subst. inversion Hr1; subst.
         exists [yv']. split; [exact Hl'|]. split; [exact Hs'|]. apply Hrel_y. right. split; auto.
-        rewrite (proj1 Hyv). now apply pwn_all1_shape.
+        rewrite (proj1 Hyv). now apply pwg_all1_shape.
       + assert (Hex : Exists (fun v => length (shape v) = length p) vs).
         { assert (Hne : exists v, In v vs /\ all1 (shape v) = false).
           { clear - Eall. induction vs as [|v l IH]; simpl in Eall; [discriminate|]. destruct (all1 (shape v)) eqn:E.
@@ -491,11 +480,11 @@ Section RegionSound.
           destruct Hpair as (w & [[Ht Hl0]|[H1 _]]); [|congruence]. rewrite (proj1 Ht). simpl. apply gather_length. }
         assert (Hrk : Forall (fun v => length (shape v) <= length p) vs).
         { apply (lookups_Forall V _ em (n_ins n) vs Hl). intros u w Hu Ew. exact (Hrank n u w Hn Hop Hu (Hle _ _ Ew)). }
-        destruct (pwn_transpose (F (op_type (n_op n)) (n_attrs n)) p vs vs' Hp Htrel Hex Hrk Hok) as (Hok' & Hteq & Hlen').
+        destruct (pwg_transpose (F (op_type (n_op n)) (n_attrs n)) p vs vs' Hp Htrel Hex Hrk Hok) as (Hok' & Hteq & Hlen').
         assert (Hacc' : sem (n_op n) (n_attrs n) vs' <> None).
         { apply (Hacc (n_op n) (n_attrs n) vs vs'); [apply str_in_In; apply in_or_app; left; now apply str_in_In | congruence | exact Hse | now right]. }
         destruct (sem (n_op n) (n_attrs n) vs') as [o'|] eqn:Es'; [|contradiction].
-        destruct (Hpw _ _ _ _ Hop Es' Hok') as (yv' & -> & Hyv').
+        destruct (Hpw _ _ _ _ Hop Es') as (_ & yv' & -> & Hyv').
         exists [yv']. split; [exact Hl'|]. split; [reflexivity|]. apply Hrel_y. left. split.
         * eapply teq_trans; [exact Hyv|]. eapply teq_trans; [exact Hteq|]. apply transpose_teq; auto. now apply teq_sym.
         * now rewrite (proj1 Hyv').
@@ -580,61 +569,13 @@ Section RegionSound.
     - pose proof (relR_teq _ _ _ HD HnD Hr) as Ht. now rewrite (proj1 Ht).
   Qed.
 
-  (* the operands of a region member stay "one common shape or one element" in the other layout *)
-  Lemma trel_operands_ok n vs vs' : In n (r_es r) -> str_in (nop n) pw_ops_all = true -> lookups V ef (n_ins n) = Some vs ->
-    Forall2 (trel p) vs vs' -> operands_ok vs'.
+  Theorem region_admissible : tadmissible (apply_region g r) e.
   Proof.
-    intros Hn Hop Hl Htrel. pose proof (Hbc n vs Hn Hop Hl) as Hok.
-    destruct (forallb (fun v => all1 (shape v)) vs) eqn:Eall.
-    - assert (Hall' : Forall (fun w => all1 (shape w) = true) vs').
-      { rewrite forallb_forall in Eall. clear - Htrel Eall Hp. induction Htrel as [|v w l l' H _ IH]; constructor.
-        - destruct (trel_facts p v w Hp H) as (Ha & _). rewrite <- Ha. apply Eall. now left.
-        - apply IH. intros x Hx. apply Eall. now right. }
-      unfold operands_ok. rewrite Forall_forall in *. intros w Hw. left. now apply Hall'.
-    - assert (Hex : Exists (fun v => length (shape v) = length p) vs).
-      { assert (Hne : exists v, In v vs /\ all1 (shape v) = false).
-        { clear - Eall. induction vs as [|v l IH]; simpl in Eall; [discriminate|]. destruct (all1 (shape v)) eqn:E.
-          - destruct (IH Eall) as (v0 & H0 & H1). exists v0. split; auto. now right.
-          - exists v. split; auto. now left. }
-        destruct Hne as (v & Hv & Hnv). apply Exists_exists. exists v. split; auto.
-        assert (Hpair : exists w, trel p v w).
-        { clear - Htrel Hv. induction Htrel as [|a0 b0 l l' H _ IH]; [contradiction|]. destruct Hv as [<-|Hv]; eauto. }
-        destruct Hpair as (w & [[Ht Hl0]|[H1 _]]); [|congruence]. rewrite (proj1 Ht). simpl. apply gather_length. }
-      assert (Hrk : Forall (fun v => length (shape v) <= length p) vs).
-      { apply (lookups_Forall V _ ef (n_ins n) vs Hl). intros u w Hu Ew. exact (Hrank n u w Hn Hop Hu Ew). }
-      exact (proj1 (pwn_transpose (F ""%string []) p vs vs' Hp Htrel Hex Hrk Hok)).
-  Qed.
-
-  Theorem region_admissible : tadmissible (apply_region g r) e /\ uniform_operands A sem (apply_region g r) e.
-  Proof.
-    destruct region_env as (ef' & Hev' & Hi). split; [constructor|].
+    destruct region_env as (ef' & Hev' & Hi). constructor.
     - cbn [apply_region tg_nodes]. apply ssa_sim; auto. exact region_tr_outs.
     - intros ef2 x w Hev2 Hsc Hx. rewrite Hev' in Hev2. injection Hev2 as <-.
       destruct (new_defined_plain ef' x w Hev' Hi Hx) as (v & Ev & Hr & HnD).
       rewrite <- (relR_all1 x v w HnD Hr). exact (tadm_scalar _ _ _ _ Hadm ef x v Hev Hsc Ev).
-    - intros ef2 n' vs' Hev2 Hn' Hel Hop Hl'. rewrite Hev' in Hev2. injection Hev2 as <-.
-      cbn [apply_region tg_nodes] in Hn'. apply in_map_iff in Hn' as (m & <- & Hm). apply filter_In in Hm as [Hm Hk].
-      assert (Hel_m : is_elem m = true) by (unfold is_elem, nop in *; now rewrite region_tr_op in Hel).
-      assert (Hop_m : str_in (nop m) pw_ops_all = true) by (unfold nop in *; now rewrite region_tr_op in Hop).
-      destruct (memn m (r_es r)) eqn:Ees.
-      + apply memn_In in Ees. destruct (rf_es _ _ _ _ Hrf m Ees) as (_ & _ & Hcaps & _).
-        destruct (eval_consistent V sem _ _ _ m Hssa Hev Hm) as (vs & o & Hl & _ & _).
-        unfold n_uses in Hl. rewrite Hcaps, app_nil_r in Hl.
-        destruct (es_operands (tg_nodes g) [] ef ef' m (eq_sym (app_nil_r _)) Hev (fun y a0 H => H) Hi Ees (n_ins m) vs (fun u H => H) Hl)
-          as (vs2 & Hl2 & Htrel).
-        assert (Huses : n_uses (region_tr r m) = map (ren_in r) (n_ins m)).
-        { unfold region_tr, n_uses. rewrite (proj2 (memn_In _ _) Ees), Hcaps. cbn [n_ins n_caps map]. now rewrite app_nil_r. }
-        rewrite Huses, Hl2 in Hl'. injection Hl' as <-.
-        exact (trel_operands_ok m vs vs2 Ees Hop_m Hl Htrel).
-      + destruct (other_facts m Hm Hk Ees) as (HusesDead & HusesD & _ & Htr_eq).
-        destruct (eval_consistent V sem _ _ _ m Hssa Hev Hm) as (vs & o & Hl & _ & _).
-        destruct (rinv_lookups V rhoR relR _ _ _ _ Hi Hl) as (vs2 & Hl2 & Hrl).
-        rewrite Htr_eq, n_uses_subst_map, Hl2 in Hl'. injection Hl' as <-.
-        apply (operands_ok_shapes vs vs2).
-        * clear - Hrl HusesD HusesDead. induction Hrl as [|x v w xr vr wr Hx _ IH]; constructor.
-          -- exact (proj1 (relR_teq x v w (HusesD x (or_introl eq_refl)) (HusesDead x (or_introl eq_refl)) Hx)).
-          -- apply IH; intros x0 H0; first [apply HusesD; now right | apply HusesDead; now right].
-        * exact (Huni_old m vs Hm Hel_m Hop_m Hl).
   Qed.
 End RegionSound.
 
@@ -854,11 +795,11 @@ Section ForestSound.
     exists o', sem op ats vs' = Some o' /\ Forall2 teq o o'.
   Hypothesis Htr : sem_transpose_spec A sem op_type.
   Variable F : string -> list nat -> list A -> A.
-  Hypothesis Hpw : sem_pointwise_spec_a A sem op_type F.
+  Hypothesis Hpw : sem_pointwise_spec_g A sem op_type F.
   Variable Fcl : list nat -> V -> A -> A.
   Hypothesis Hcl : sem_castlike_spec_n A sem op_type Fcl.
   Hypothesis Hcl_type : castlike_type_only A Fcl.
-  Hypothesis Hacc : sem_accepts_spec_a A sem op_type.
+  Hypothesis Hacc : sem_accepts_spec_g A sem op_type.
   Notation evalg := (eval V sem).
   Notation refinesg := (refines V teq sem).
   Notation tadmissible := (tadmissible A sem).
@@ -871,13 +812,13 @@ Section ForestSound.
   Qed.
 
   (* the value of an elementwise node without nested graphs, in the final environment *)
-  Lemma elem_val g e ef n : tadmissible g e -> uniform_operands A sem g e -> evalg (tg_nodes g) e = Some ef ->
+  Lemma elem_val g e ef n : tadmissible g e -> evalg (tg_nodes g) e = Some ef ->
     In n (tg_nodes g) -> is_elem n = true -> n_caps n = [] ->
     exists vs yv, n_outs n = [out_of n] /\ lookups V ef (n_ins n) = Some vs /\ ef (out_of n) = Some yv /\
       ((nop n = "CastLike"%string /\ exists x t, vs = [x; t] /\ length (shape yv) = length (shape x)) \/
        (str_in (nop n) pw_ops_all = true /\ forall v, In v vs -> length (shape v) <= length (shape yv))).
   Proof.
-    intros Hadm Huni Hev Hn Hel Hcaps.
+    intros Hadm Hev Hn Hel Hcaps.
     destruct (eval_consistent V sem _ _ _ n (tadm_ssa _ _ _ _ Hadm) Hev Hn) as (vs & o & Hl & Hs & Hlo).
     assert (Hl' : lookups V ef (n_ins n) = Some vs) by (unfold n_uses in Hl; now rewrite Hcaps, app_nil_r in Hl).
     assert (Hone : forall y, o = [y] -> n_outs n = [out_of n] /\ ef (out_of n) = Some y).
@@ -885,16 +826,14 @@ Section ForestSound.
     destruct (elem_in_pw_all _ Hel) as [Hop|Hop].
     - destruct (Hcl _ _ _ _ Hop Hs) as (x & t & y & -> & Ho & Hy). destruct (Hone y Ho) as [H1 H2].
       exists [x; t], y. repeat split; auto. left. split; auto. exists x, t. split; auto. now rewrite (proj1 Hy).
-    - pose proof (Huni ef n vs Hev Hn Hel Hop Hl) as Hok.
-      destruct (Hpw _ _ _ _ Hop Hs Hok) as (y & Ho & Hy). destruct (Hone y Ho) as [H1 H2].
-      exists vs, y. repeat split; auto. right. split; auto. intros v Hv. rewrite (proj1 Hy). now apply pwn_rank_ge.
+    - destruct (Hpw _ _ _ _ Hop Hs) as (_ & y & Ho & Hy). destruct (Hone y Ho) as [H1 H2].
+      exists vs, y. repeat split; auto. right. split; auto. intros v Hv. rewrite (proj1 Hy), pwg_rank. now apply prank_ge.
   Qed.
 
   Section Forest.
     Variables (g : tgraph) (t2 : node) (f : forest) (v0 : name) (p q : list nat) (e ef : env V).
     Hypothesis Hff : forest_facts g t2 f v0 p q.
     Hypothesis Hadm : tadmissible g e.
-    Hypothesis Huni : uniform_operands A sem g e.
     Hypothesis Hev : evalg (tg_nodes g) e = Some ef.
     Hypothesis Hcts : castlike_types_scalar g (f_es f) = true.
     Let Hssa := tadm_ssa _ _ _ _ Hadm.
@@ -1046,18 +985,13 @@ Section ForestSound.
     Lemma forest_run : refinesg (tg_graph g) (tg_graph (apply_forest g f)) e.
     Proof.
       apply (region_run A sem sem_proper Htr F Hpw Fcl Hcl Hcl_type Hacc g r p q e ef Hadm forest_region_facts Hev).
-      - intros n u v Hn. apply forest_rank. exact Hn.
-      - intros n vs Hn Hop Hl. destruct (f_es_in n Hn) as (H1 & H2 & H3).
-        apply (Huni ef n vs Hev H1 H2 Hop). unfold n_uses. now rewrite H3, app_nil_r.
+      intros n u v Hn. apply forest_rank. exact Hn.
     Qed.
 
-    Lemma forest_admissible : tadmissible (apply_forest g f) e /\ uniform_operands A sem (apply_forest g f) e.
+    Lemma forest_admissible : tadmissible (apply_forest g f) e.
     Proof.
       apply (region_admissible A sem sem_proper Htr F Hpw Fcl Hcl Hcl_type Hacc g r p q e ef Hadm forest_region_facts Hev).
-      - intros n u v Hn. apply forest_rank. exact Hn.
-      - intros n vs Hn Hop Hl. destruct (f_es_in n Hn) as (H1 & H2 & H3).
-        apply (Huni ef n vs Hev H1 H2 Hop). unfold n_uses. now rewrite H3, app_nil_r.
-      - intros n vs Hn Hel Hop Hl. exact (Huni ef n vs Hev Hn Hel Hop Hl).
+      intros n u v Hn. apply forest_rank. exact Hn.
     Qed.
   End Forest.
 End ForestSound.
@@ -1269,11 +1203,11 @@ Section AddSound.
     exists o', sem op ats vs' = Some o' /\ Forall2 teq o o'.
   Hypothesis Htr : sem_transpose_spec A sem op_type.
   Variable F : string -> list nat -> list A -> A.
-  Hypothesis Hpw : sem_pointwise_spec_a A sem op_type F.
+  Hypothesis Hpw : sem_pointwise_spec_g A sem op_type F.
   Variable Fcl : list nat -> V -> A -> A.
   Hypothesis Hcl : sem_castlike_spec_n A sem op_type Fcl.
   Hypothesis Hcl_type : castlike_type_only A Fcl.
-  Hypothesis Hacc : sem_accepts_spec_a A sem op_type.
+  Hypothesis Hacc : sem_accepts_spec_g A sem op_type.
   Notation evalg := (eval V sem).
   Notation stepg := (step V sem).
   Notation refinesg := (refines V teq sem).
@@ -1282,7 +1216,6 @@ Section AddSound.
   Variables (g : tgraph) (st : addst) (p q : list nat) (e ef : env V).
   Hypothesis Haf : add_facts g st p q.
   Hypothesis Hadm : tadmissible g e.
-  Hypothesis Huni : uniform_operands A sem g e.
   Hypothesis Hev : evalg (tg_nodes g) e = Some ef.
   Let Hssa := tadm_ssa _ _ _ _ Hadm.
   Let Hnd : NoDup (defs (tg_nodes g)) := proj1 Hssa.
@@ -1298,7 +1231,7 @@ Section AddSound.
       forall v, In v vs -> length (shape v) <= length (shape yv).
   Proof.
     intro Hc. destruct (a_es_in c Hc) as (H1 & H2 & H3 & H4).
-    destruct (elem_val A sem F Hpw Fcl Hcl g e ef c Hadm Huni Hev H1 H2 H3) as (vs & yv & Ho & Hl & Ey & [(Hcl0 & _)|(_ & Hle)]).
+    destruct (elem_val A sem F Hpw Fcl Hcl g e ef c Hadm Hev H1 H2 H3) as (vs & yv & Ho & Hl & Ey & [(Hcl0 & _)|(_ & Hle)]).
     - unfold is_add in H4. apply String.eqb_eq in H4. rewrite H4 in Hcl0. discriminate.
     - exists vs, yv. auto.
   Qed.
@@ -1423,10 +1356,9 @@ Section AddSound.
     rewrite <- app_assoc in Hsplit. simpl in Hsplit. apply in_app_or in Hcp as [Hcp|[<-|[]]]; [exact (IH _ Hsplit c yv Hc Hcp Ey)|].
     destruct (a_es_in n Hc) as (Hnin & Hel & Hcaps & Hadd).
     destruct (eval_consistent V sem _ _ _ n Hssa Hev Hnin) as (vs & o & Hl & Hs & Hlo).
-    pose proof (Huni ef n vs Hev Hnin Hel (add_is_pw n Hadd) Hl) as Hok.
-    destruct (Hpw _ _ _ _ (add_is_pw n Hadd) Hs Hok) as (y & -> & Hy).
+    destruct (Hpw _ _ _ _ (add_is_pw n Hadd) Hs) as (_ & y & -> & Hy).
     destruct (a_es_val n Hc) as (_ & _ & Hno & _). rewrite Hno in Hlo. simpl in Hlo. rewrite Ey in Hlo. injection Hlo as ->.
-    rewrite (proj1 Hy). apply pwn_rank_le.
+    rewrite (proj1 Hy), pwg_rank. apply prank_le.
     unfold n_uses in Hl. rewrite Hcaps, app_nil_r in Hl.
     apply (lookups_Forall V _ ef (n_ins n) vs Hl). intros u w Hu Ew.
     apply (add_operand_rank (fun pr => In pr l) n u w Hc Hu Ew).
@@ -1438,24 +1370,19 @@ Section AddSound.
   Lemma add_run : refinesg (tg_graph g) (tg_graph (apply_add g st)) e.
   Proof.
     apply (region_run A sem sem_proper Htr F Hpw Fcl Hcl Hcl_type Hacc g r p q e ef Hadm add_region_facts Hev).
-    - intros n u v Hn _ Hu Ev. cbn [r add_region r_es] in Hn.
-      apply (add_operand_rank (fun _ => True) n u v Hn Hu Ev); auto.
-      intros pr yv _ Hpr E0. destruct (a_es_in pr Hpr) as (Hprin & _).
-      apply (add_rank_forward (tg_nodes g) [] (eq_sym (app_nil_r _)) pr yv Hpr Hprin E0).
-    - intros n vs Hn Hop Hl. cbn [r add_region r_es] in Hn. destruct (a_es_in n Hn) as (H1 & H2 & H3 & _).
-      apply (Huni ef n vs Hev H1 H2 Hop). unfold n_uses. now rewrite H3, app_nil_r.
+    intros n u v Hn _ Hu Ev. cbn [r add_region r_es] in Hn.
+    apply (add_operand_rank (fun _ => True) n u v Hn Hu Ev); auto.
+    intros pr yv _ Hpr E0. destruct (a_es_in pr Hpr) as (Hprin & _).
+    apply (add_rank_forward (tg_nodes g) [] (eq_sym (app_nil_r _)) pr yv Hpr Hprin E0).
   Qed.
 
-  Lemma add_admissible : tadmissible (apply_add g st) e /\ uniform_operands A sem (apply_add g st) e.
+  Lemma add_admissible : tadmissible (apply_add g st) e.
   Proof.
     apply (region_admissible A sem sem_proper Htr F Hpw Fcl Hcl Hcl_type Hacc g r p q e ef Hadm add_region_facts Hev).
-    - intros n u v Hn _ Hu Ev. cbn [r add_region r_es] in Hn.
-      apply (add_operand_rank (fun _ => True) n u v Hn Hu Ev); auto.
-      intros pr yv _ Hpr E0. destruct (a_es_in pr Hpr) as (Hprin & _).
-      apply (add_rank_forward (tg_nodes g) [] (eq_sym (app_nil_r _)) pr yv Hpr Hprin E0).
-    - intros n vs Hn Hop Hl. cbn [r add_region r_es] in Hn. destruct (a_es_in n Hn) as (H1 & H2 & H3 & _).
-      apply (Huni ef n vs Hev H1 H2 Hop). unfold n_uses. now rewrite H3, app_nil_r.
-    - intros n vs Hn Hel Hop Hl. exact (Huni ef n vs Hev Hn Hel Hop Hl).
+    intros n u v Hn _ Hu Ev. cbn [r add_region r_es] in Hn.
+    apply (add_operand_rank (fun _ => True) n u v Hn Hu Ev); auto.
+    intros pr yv _ Hpr E0. destruct (a_es_in pr Hpr) as (Hprin & _).
+    apply (add_rank_forward (tg_nodes g) [] (eq_sym (app_nil_r _)) pr yv Hpr Hprin E0).
   Qed.
 End AddSound.
 
@@ -1480,24 +1407,26 @@ Section AllKinds.
     exists o', sem op ats vs' = Some o' /\ Forall2 teq o o'.
   Hypothesis Htr : sem_transpose_spec A sem op_type.
   Variable F : string -> list nat -> list A -> A.
-  Hypothesis Hpw : sem_pointwise_spec_a A sem op_type F.
+  Hypothesis Hpw : sem_pointwise_spec_g A sem op_type F.
   Variable Fcl : list nat -> V -> A -> A.
   Hypothesis Hcl : sem_castlike_spec_n A sem op_type Fcl.
   Hypothesis Hcl_type : castlike_type_only A Fcl.
-  Hypothesis Hacc : sem_accepts_spec_a A sem op_type.
+  Hypothesis Hacc : sem_accepts_spec_g A sem op_type.
   Notation evalg := (eval V sem).
   Notation refinesg := (refines V teq sem).
 
-  (* SSA, one-element flags true, and no genuine broadcasting between multi-element operands of an elementwise node *)
-  Definition tadmissible_u (g : tgraph) (e : env V) : Prop := tadmissible A sem g e /\ uniform_operands A sem g e.
+  Notation tadmissible := (tadmissible A sem).
+  (* the restricted reading of the pointwise operators the chain folds use follows from the general one *)
+  Let Hpwa : sem_pointwise_spec_a A sem op_type F := spec_g_a A sem op_type F Hpw.
+  Let Hacca : sem_accepts_spec_a A sem op_type := accepts_g_a A sem op_type Hacc.
 
-  Theorem transpose_pair_action_sound_all g act e : tadmissible_u g e -> decide_step g = Some act -> proved_kind_all g act = true ->
+  Theorem transpose_pair_action_sound_all g act e : tadmissible g e -> decide_step g = Some act -> proved_kind_all g act = true ->
     refinesg (tg_graph g) (tg_graph (apply_taction g act)) e.
   Proof.
-    intros [Hadm Huni] Hdec Hk.
+    intros Hadm Hdec Hk.
     assert (Hold : proved_kind act = true -> refinesg (tg_graph g) (tg_graph (apply_taction g act)) e).
-    { intro Hk'. exact (transpose_pair_action_sound A sem sem_proper Htr F (spec_a_n A sem op_type F Hpw) Fcl Hcl Hcl_type
-                          (accepts_a_n A sem op_type Hacc) g act e Hadm Hdec Hk'). }
+    { intro Hk'. exact (transpose_pair_action_sound A sem sem_proper Htr F (spec_a_n A sem op_type F Hpwa) Fcl Hcl Hcl_type
+                          (accepts_a_n A sem op_type Hacca) g act e Hadm Hdec Hk'). }
     destruct act as [st|f|d|a|src a0 b]; try (apply Hold; exact Hk).
     - (* Add chain *)
       unfold decide_step in Hdec. destruct (first_some (decide_add g) (tg_nodes g)) as [st'|] eqn:Efs.
@@ -1508,7 +1437,7 @@ Section AllKinds.
       intros o Hrun. assert (Hev : exists ef, evalg (tg_nodes g) e = Some ef).
       { unfold run in Hrun. simpl in Hrun. destruct (evalg (tg_nodes g) e); [eauto|discriminate]. }
       destruct Hev as [ef Hev].
-      exact (add_run A sem sem_proper Htr F Hpw Fcl Hcl Hcl_type Hacc g st' p q e ef Haf Hadm Huni Hev o Hrun).
+      exact (add_run A sem sem_proper Htr F Hpw Fcl Hcl Hcl_type Hacc g st' p q e ef Haf Hadm Hev o Hrun).
     - (* forest *)
       unfold decide_step in Hdec. destruct (first_some (decide_add g) (tg_nodes g)); [discriminate|].
       destruct (first_some (decide_forest g) (tg_nodes g)) as [f'|] eqn:Efs.
@@ -1519,32 +1448,28 @@ Section AllKinds.
       intros o Hrun. assert (Hev : exists ef, evalg (tg_nodes g) e = Some ef).
       { unfold run in Hrun. simpl in Hrun. destruct (evalg (tg_nodes g) e); [eauto|discriminate]. }
       destruct Hev as [ef Hev]. simpl in Hk.
-      exact (forest_run A sem sem_proper Htr F Hpw Fcl Hcl Hcl_type Hacc g t2 f' v0 p q e ef Hff Hadm Huni Hev Hk o Hrun).
+      exact (forest_run A sem sem_proper Htr F Hpw Fcl Hcl Hcl_type Hacc g t2 f' v0 p q e ef Hff Hadm Hev Hk o Hrun).
   Qed.
 
-  Lemma tadm_transport g g1 g2 e : tg_nodes g1 = tg_nodes g2 -> tg_scalar g1 = tg_scalar g2 ->
-    tadmissible A sem g1 e /\ (uniform_operands A sem g e -> uniform_operands A sem g1 e) -> uniform_operands A sem g e ->
-    tadmissible_u g2 e.
+  Lemma tadm_transport g1 g2 e : tg_nodes g1 = tg_nodes g2 -> tg_scalar g1 = tg_scalar g2 -> tadmissible g1 e -> tadmissible g2 e.
   Proof.
-    intros Hn Hs [[H1 H2] H3] Hu. split.
-    - constructor; [now rewrite <- Hn | intros ef x v; rewrite <- Hn, <- Hs; apply H2].
-    - intros ef n vs. rewrite <- Hn. apply (H3 Hu).
+    intros Hn Hs [H1 H2]. constructor; [now rewrite <- Hn | intros ef x v; rewrite <- Hn, <- Hs; apply H2].
   Qed.
 
-  (* what the pass reads (SSA, one-element flags, uniform operands) is preserved by every action of a proved kind *)
-  Theorem transpose_pair_action_admissible g act e ef : tadmissible_u g e -> evalg (tg_nodes g) e = Some ef ->
-    decide_step g = Some act -> proved_kind_all g act = true -> tadmissible_u (apply_taction g act) e.
+  (* what the pass reads (SSA, one-element flags) is preserved by every action of a proved kind *)
+  Theorem transpose_pair_action_admissible g act e ef : tadmissible g e -> evalg (tg_nodes g) e = Some ef ->
+    decide_step g = Some act -> proved_kind_all g act = true -> tadmissible (apply_taction g act) e.
   Proof.
-    intros [Hadm Huni] Hev Hdec Hk. unfold decide_step in Hdec.
+    intros Hadm Hev Hdec Hk. unfold decide_step in Hdec.
     destruct (first_some (decide_add g) (tg_nodes g)) as [st|] eqn:Eadd.
     { injection Hdec as <-. apply first_some_spec in Eadd as (start & Hstart & Hd).
       destruct (decide_add_facts g start st Hstart Hd) as (p & q & Haf).
-      exact (add_admissible A sem sem_proper Htr F Hpw Fcl Hcl Hcl_type Hacc g st p q e ef Haf Hadm Huni Hev). }
+      exact (add_admissible A sem sem_proper Htr F Hpw Fcl Hcl Hcl_type Hacc g st p q e ef Haf Hadm Hev). }
     destruct (first_some (decide_forest g) (tg_nodes g)) as [f|] eqn:Efor.
     { injection Hdec as <-. apply first_some_spec in Efor as (t2 & Ht2 & Hd).
       destruct (decide_forest_facts g t2 f Hd) as (v0 & p & q & Hff). simpl in Hk.
-      exact (forest_admissible A sem sem_proper Htr F Hpw Fcl Hcl Hcl_type Hacc g t2 f v0 p q e ef Hff Hadm Huni Hev Hk). }
-    pose proof (spec_a_n A sem op_type F Hpw) as Hpwn. pose proof (accepts_a_n A sem op_type Hacc) as Haccn.
+      exact (forest_admissible A sem sem_proper Htr F Hpw Fcl Hcl Hcl_type Hacc g t2 f v0 p q e ef Hff Hadm Hev Hk). }
+    pose proof (spec_a_n A sem op_type F Hpwa) as Hpwn. pose proof (accepts_a_n A sem op_type Hacca) as Haccn.
     destruct (first_some (decide_dag g) (tg_nodes g)) as [d|] eqn:Edag.
     { injection Hdec as <-. apply first_some_spec in Edag as (t2 & Ht2 & Hd).
       assert (Ht2d : d_T2 d = t2).
@@ -1561,7 +1486,7 @@ Section AllKinds.
       cbn [apply_taction].
       change (tg_graph g) with (mkGraph (tg_nodes g) (tg_outputs g)) in Heq.
       rewrite (rewire_eq _ _ a T1 (d_T2 d) (proj1 (tadm_ssa _ _ _ _ Hadm)) (tf_struct _ _ _ _ _ _ Htf)) in Heq.
-      refine (tadm_transport g _ (apply_dag g d) e _ _ Hpres Huni).
+      refine (tadm_transport _ (apply_dag g d) e _ _ (proj1 Hpres)).
       - cbn [tg_nodes]. symmetry. exact (f_equal g_nodes Heq).
       - cbn [tg_scalar]. unfold apply_dag. destruct (out1 (d_T1 d)); [|reflexivity]. destruct (first_in (d_T1 d)); [|reflexivity].
         destruct (out1 (d_T2 d)); [|reflexivity]. destruct (first_in (d_T2 d)); reflexivity. }
@@ -1570,13 +1495,13 @@ Section AllKinds.
     - destruct (decide_D_chain_facts g T1 a HT1 Hd) as (T2 & p & q & Htf).
       pose proof (tchain_admissible A sem sem_proper Htr F Hpwn Fcl Hcl Hcl_type Haccn g a T1 T2 p q e ef Hadm Htf Hk Hev) as Hpres.
       cbn [apply_taction].
-      refine (tadm_transport g _ (apply_chain g a) e _ _ Hpres Huni).
+      refine (tadm_transport _ (apply_chain g a) e _ _ (proj1 Hpres)).
       + cbn [tg_nodes]. symmetry.
         exact (f_equal g_nodes (rewire_eq _ _ a T1 T2 (proj1 (tadm_ssa _ _ _ _ Hadm)) (tf_struct _ _ _ _ _ _ Htf))).
       + reflexivity.
     - destruct (decide_D_multi_facts g T1 src a0 b HT1 Hd) as (T2 & p & q & H2 & HT1' & Hp & Hs & Ho & HT2 & Hq & Hi & Hob & Hinv & Hne).
       destruct (tmulti_admissible A sem sem_proper Htr g e ef T1 T2 p q src a0 b Hadm HT1 H2 HT1' Hp Hs Ho HT2 Hq Hi Hob Hinv Hne Hev) as [H1 H2'].
-      split; [exact H1 | exact (H2' Huni)].
+      exact H1.
   Qed.
 
   (* the purely computational part of what used to be assumed along the loop *)
@@ -1587,7 +1512,7 @@ Section AllKinds.
     end.
 
   (* THE PASS, for every graph that is admissible WHEN THE PASS STARTS *)
-  Theorem transpose_pair_pass_sound_start : forall fuel g e, tadmissible_u g e -> kinds_along fuel g = true ->
+  Theorem transpose_pair_pass_sound_start : forall fuel g e, tadmissible g e -> kinds_along fuel g = true ->
     refinesg (tg_graph g) (tg_graph (transpose_pair_pass fuel g)) e.
   Proof.
     induction fuel as [|k IH]; simpl; intros g e Hadm Hkinds.
@@ -1604,7 +1529,7 @@ Section AllKinds.
   Qed.
 
   Fixpoint tadmissible_along_all (fuel : nat) (g : tgraph) (e : env V) : Prop :=
-    tadmissible_u g e /\
+    tadmissible g e /\
     match fuel with
     | O => True
     | S k => match decide_step g with
